@@ -233,9 +233,9 @@ PROPS["C20"] = dict(
 
 PROPS["C04"] = dict(
     title="A completed delivery is final: late or duplicate PDUs cannot undo or redo it",
-    module="Cfdp.Props.C04",
+    module="Cfdp.Props.C04n",
     namespace="Cfdp.Loop",
-    theorems=["C04_final", "C04_late", "Cfdp.Send.C04_sender"],
+    theorems=["C04_final", "C04_late", "Cfdp.Send.C04_sender", "Cfdp.Net.C04_two_party"],
     engines=["recv", "send", "net"],
     design="§6 C04",
     technique="Lean 4 invariant proofs over all event histories of the receiver and sender models + differential correspondence",
